@@ -162,7 +162,7 @@ def build(tables, file_objects=None, *, hdr_seqs=(2, 1), sigs=None, version=0x40
     return bytes(buf)
 
 
-def plan_tables(nodes, *, ntables_free=(), stale=(), newer_first=True, big_threshold=0x800, pad_rng=None, flag_rng=None, far=0):
+def plan_tables(nodes, *, ntables_free=(), stale=(), newer_first=True, big_threshold=0x800, pad_rng=None, flag_rng=None, far=0, emptied=()):
     """nodes: list of {"id", "parent" (id or 0), "tbl", "key", "type", "value"} (parents before children).
     Lays the entries out per table (with optional free entries), resolves parent references to (table index, entry
     offset) and returns (tables in object-table order, file_objects, layout)."""
@@ -236,6 +236,14 @@ def plan_tables(nodes, *, ntables_free=(), stale=(), newer_first=True, big_thres
             tables += [cur, old] if newer_first else [old, cur]
         else:
             tables.append(cur)
+    # table indices whose keys have all been deleted since: the current copy holds released entries only, the superseded copy still
+    # has what was deleted (it must stay invisible)
+    for t in emptied:
+        if t in plans:
+            continue
+        cur = {"idx": t, "seq": 9, "entries": [free_entry(40), free_entry(33, flags=1, stale_key=b"gone")]}
+        old = {"idx": t, "seq": 4, "entries": [entry(T_INT, f"ghost-deleted-{t}", 0, 0, value_bytes(T_INT, 666))]}
+        tables += [cur, old] if newer_first else [old, cur]
     # key tables are allocated after the file objects
     for tb in tables:
         size = -(-max(10 + sum(len(e) for e in tb["entries"]) + 32, 0x1000) // ALIGN) * ALIGN
